@@ -359,6 +359,7 @@ class Result:
 
     def __init__(self, prop, tier):
         self.prop = prop
+        self.support_changed = []
         self.tier = tier
         self.t0 = time.time()
         self.violations = []      # (replay_path, no_input_found, message)
@@ -467,6 +468,13 @@ def proof_stage(res, prop, extra_targets=(), drivers=()):
         broken.append('%s: the code of %s differs (beyond comments and white space) from the version the model and proofs of %s '
                       'were reviewed against' % (aname, ', '.join(changed) if changed else 'an anchor file', prop))
     names = names + [aname]
+    # T2c: supporting files (include closure of the anchors) are trusted base, not obligations: a change there makes the
+    # checks run their extended failing-input search and is recorded, but is not by itself reported
+    try:
+        res.support_changed = x_anchors.changed_support(prop, REPO)
+    except Exception as e:  # noqa
+        res.support_changed = ['(supporting-file comparison failed: %s)' % e]
+    res.coverage['supporting_files_changed'] = res.support_changed
     res.coverage.update({
         'obligations': obligations, 'discharged': discharged,
         'checker_cmd': 'cd /verif/lean && lake build %s %s %s && lake env lean <#print axioms of every theorem in Props/%s.lean>' % (module, amod, ' '.join(drivers), prop),
